@@ -281,6 +281,19 @@ class Module:
             self.functions[st.name] = FuncInfo(st, self, None)
         elif isinstance(st, ast.Assign) and len(st.targets) == 1 and isinstance(st.targets[0], ast.Name):
             self.assigns[st.targets[0].id] = st.value
+        elif isinstance(st, ast.Assign) and len(st.targets) == 1 and isinstance(st.targets[0], (ast.Tuple, ast.List)) \
+                and all(isinstance(e, ast.Name) for e in st.targets[0].elts):
+            # A, B, C = x, y, z   /   A, B = some_sequence
+            tg = st.targets[0].elts
+            if isinstance(st.value, (ast.Tuple, ast.List)) and len(st.value.elts) == len(tg):
+                for e, v in zip(tg, st.value.elts):
+                    self.assigns[e.id] = v
+            else:
+                for i_, e in enumerate(tg):
+                    self.assigns[e.id] = ast.copy_location(ast.Subscript(value=st.value, slice=ast.Constant(value=i_), ctx=ast.Load()), st.value)
+        elif isinstance(st, ast.Assign) and len(st.targets) > 1 and all(isinstance(t, ast.Name) for t in st.targets):
+            for t in st.targets:          # A = B = value
+                self.assigns[t.id] = st.value
         elif isinstance(st, ast.AnnAssign) and isinstance(st.target, ast.Name) and st.value is not None:
             self.assigns[st.target.id] = st.value
         elif isinstance(st, (ast.Assign, ast.AnnAssign)) and getattr(st, "value", None) is not None \
